@@ -216,6 +216,14 @@ class BaseTemplate:
         for name, function in functions.items():
             setattr(self, "_" + name, function)
 
+        # Retire the entry points of a previous version of the template
+        # (e.g. a macro that no longer exists after a reload).
+        for attr in [
+            attr for attr in self.__dict__
+            if attr.startswith("_render") and attr[1:] not in functions
+        ]:
+            delattr(self, attr)
+
         self._cooked = True
 
         if self.keep_body:
